@@ -2,10 +2,11 @@
 # usage: run_seeded_batch.sh C08 C09 ...   (confirms /tmp/m/<ID>/out/{1,2,3}, copies to seeded/, runs the check on each)
 for id in "$@"; do
   for k in 1 2 3; do
-    [ -d /tmp/m/$id/out/$k ] || continue
+    base=${M_BASE:-/tmp/m}; off=${K_OFFSET:-0}; n=$((k+off))
+    [ -d $base/$id/out/$k ] || continue
     /verif/tools/confirm_seeded.sh $id $k | cut -c1-160
-    if [ -d /verif/seeded/$id-$k ]; then
-      r=$(cd /verif && timeout 2400 python3 tools/seeded.py seeded/$id-$k 2>&1 | grep -E '"caught"|VIOLATION' | tr -d '\n' | cut -c1-200)
+    if [ -d /verif/seeded/$id-$n ]; then
+      r=$(cd /verif && timeout 2400 python3 tools/seeded.py seeded/$id-$n 2>&1 | grep -E '"caught"|VIOLATION' | tr -d '\n' | cut -c1-200)
       echo "   check: $r"
     fi
   done
